@@ -33,6 +33,7 @@ func init() {
 func runC31(c *Ctx) {
 	w := c.W
 	c31Extras(c)
+	c31Extras3(c)
 	dec := w.Fn(fnDecTicket)
 	if dec == nil {
 		c.Undecided("R-CUT", fnDecTicket, "anchor", "-", "not found")
